@@ -3,6 +3,7 @@
 # The scratch copy lives under /tmp and is removed afterwards.
 set -e
 PATCH="$1"; ID="$2"; TIER="${3:-quick}"
+case "$PATCH" in -R:*|/*) ;; *) PATCH="$(pwd)/$PATCH" ;; esac
 D=$(mktemp -d /tmp/pwvmut.XXXXXX)
 trap 'rm -rf "$D"' EXIT
 git -C /repo archive HEAD | tar -x -C "$D"
